@@ -114,8 +114,12 @@ def __sync__(
     global GLOBAL_SCHEMA
     global INSTANCE_CONFIG
 
+    # Unpickle everything first and only then publish the new state, so that
+    # a failed transfer leaves the worker exactly as the server believes it
+    # to be (the server does not acknowledge a FailedStateSync).
     try:
         db = DBS.get(dbname)
+        db_changed = False
         if db is None:
             assert user_schema is not None
             assert reflection_cache is not None
@@ -129,7 +133,7 @@ def __sync__(
                 reflection_cache_unpacked,
                 database_config_unpacked,
             )
-            DBS = DBS.set(dbname, db)
+            db_changed = True
         else:
             updates = {}
 
@@ -142,17 +146,24 @@ def __sync__(
 
             if updates:
                 db = db._replace(**updates)
-                DBS = DBS.set(dbname, db)
+                db_changed = True
 
+        new_global_schema = GLOBAL_SCHEMA
         if global_schema is not None:
-            GLOBAL_SCHEMA = pickle.loads(global_schema)
+            new_global_schema = pickle.loads(global_schema)
 
+        new_instance_config = INSTANCE_CONFIG
         if system_config is not None:
-            INSTANCE_CONFIG = pickle.loads(system_config)
+            new_instance_config = pickle.loads(system_config)
 
     except Exception as ex:
         raise state.FailedStateSync(
             f'failed to sync worker state: {type(ex).__name__}({ex})') from ex
+
+    if db_changed:
+        DBS = DBS.set(dbname, db)
+    GLOBAL_SCHEMA = new_global_schema
+    INSTANCE_CONFIG = new_instance_config
 
     return db
 
